@@ -78,6 +78,8 @@ func registerAll() {
 	aliases := map[string]string{
 		"8859-1":      "ISO8859-1",
 		"ISO-8859-1":  "ISO8859-1",
+		"8859-10":     "ISO8859-10",
+		"ISO-8859-10": "ISO8859-10",
 		"8859-13":     "ISO8859-13",
 		"ISO-8859-13": "ISO8859-13",
 		"8859-14":     "ISO8859-14",
